@@ -5,7 +5,7 @@ from vf.env import pick, verdict, observe, safe, build, DictCache
 from vf.ob import obligation, shard
 
 META = {
-    "bounds": "5 mutation documents (2-4 root fields, aliases, fragments at the root, nested selections with a list), <= 4 gated nested resolvers per document "
+    "bounds": "6 mutation documents (2-4 root fields, aliases, fragments at the root, nested selections with a list), <= 4 gated nested resolvers per document "
               "(every completion order), failure placement over {none, each gated nested field, a nullable root, a non-null root, argument coercion of a nullable root, a non-null root whose custom scalar answers null during completion, a nullable root raising a duck-typed coercible exception}; concurrent and sequential engine configurations, mutation root type named Mutation / custom name / added by `extend schema`",
     "outside": "more than 4 simultaneously pending nested resolvers; subscription/query operations (C08)",
     "explanation": "Start/finish log of every resolver: the first event of root field i+1 must come after the last event of root field i's whole subtree.",
@@ -16,7 +16,7 @@ scalar Tok
 type Leaf { n: Int audit: String! }
 type Mid { n: Int leaf: Leaf leaves: [Leaf] audit: String! bal: Int }
 type Query { a: Int }
-type Mutation { first: Mid second: Mid third(v: Int @ab): Int nnroot: Int! tok: Tok! }
+type Mutation { first: Mid second: Mid third(v: Int @ab): Int nnroot: Int! tok: Tok! batch: [Mid]! codes: [Int]! }
 """
 LOG = []
 GATES = {}
@@ -91,7 +91,7 @@ except Exception:        # `extend schema` with an operation type may not be sup
     pass
 LEAF = {"n": 3, "audit": "ok"}
 MID = {"n": 2, "leaf": LEAF, "leaves": [LEAF, {"n": 4, "audit": "x"}], "audit": "au", "bal": 10}
-DATA = {"first": MID, "second": MID, "nnroot": 1, "tok": "t0"}
+DATA = {"first": MID, "second": MID, "nnroot": 1, "tok": "t0", "batch": [MID, dict(MID), dict(MID)], "codes": [1, 2, 3]}
 DOCS = {
     "M1": ("mutation { first { audit bal n } second { n } third(v: 1) }", [("first", "audit"), ("first", "bal"), ("first", "n"), ("second", "n")], ["first", "second", "third"]),
     "M2": ("mutation { a: first { ...F } ...R b: third(v: 2) } fragment R on %(root)s { second { leaves { n } } } fragment F on Mid { n bal }",
@@ -100,10 +100,12 @@ DOCS = {
            ["first", "second", "nnroot", "third"]),
     "M4": ("mutation { x: third(v: 1) first { leaves { audit n } } y: third(v: 2) }", [("first", "leaves", 0, "audit"), ("first", "leaves", 0, "n"), ("first", "leaves", 1, "audit"), ("first", "leaves", 1, "n")],
            ["x", "first", "y"]),
+    # a non-null root LIST of nullable items: a failing item is absorbed as null in the list, the following root fields still run
+    "M6": ("mutation { first { n } batch { audit n } codes third(v: 6) }", [("batch", 1, "audit"), ("batch", 0, "n"), ("first", "n")], ["first", "batch", "codes", "third"]),
     "M5": ("mutation { first { n audit } tok third(v: 5) }", [("first", "n"), ("first", "audit")], ["first", "tok", "third"]),
 }
 ROOTS = ["Mutation", "Mutation", "Ops", "Changes"]
-ARGROOT = {"M1": ("third", 1), "M2": ("b", 2), "M3": ("third", 3), "M4": ("x", 1), "M5": ("third", 5)}       # (response key, v) of the root field whose argument coercion is made to fail
+ARGROOT = {"M1": ("third", 1), "M2": ("b", 2), "M3": ("third", 3), "M4": ("x", 1), "M5": ("third", 5), "M6": ("third", 6)}       # (response key, v) of the root field whose argument coercion is made to fail
 
 
 def doc_text(doc, eng):
@@ -113,6 +115,13 @@ def doc_text(doc, eng):
 for _i, _e in enumerate(ENGS):
     for _d in DOCS:
         env.run(_e.execute(doc_text(_d, _i), initial_value=DATA))
+
+
+NONNULL_ROOTS = ("tok", "batch", "codes", "nnroot")
+
+
+def _nullable_root(roots):
+    return [r for r in roots[1:] if r not in NONNULL_ROOTS][0]
 
 
 def serial(log, roots):
@@ -157,13 +166,13 @@ def c09_serial(c0: int, c1: int, c2: int, c3: int, fault: int) -> bool:
     if 1 <= fault <= len(gates):
         fpath = gates[fault - 1]
     elif fault == len(gates) + 1:
-        fpath = (roots[1] if roots[1] != "tok" else roots[2],)       # a nullable root field that is not the first one
+        fpath = (_nullable_root(roots),)       # a nullable root field that is not the first one
     elif fault == len(gates) + 2:
         fpath = ("nnroot",)
         if "tok" in roots:
             fpath = None; TOKNULL[0] = True      # the non-null root `tok` resolves fine, its scalar answers null during completion
     if fault == len(gates) + 4:
-        fpath = (roots[1] if roots[1] != "tok" else roots[2],)        # the nullable root again, failing with a duck-typed coercible exception
+        fpath = (_nullable_root(roots),)        # the nullable root again, failing with a duck-typed coercible exception
     if fpath is not None:
         FAULTS[fpath] = "duck" if fault == len(gates) + 4 else True
     cs = [c0, c1, c2, c3]
@@ -199,5 +208,12 @@ def c09_serial(c0: int, c1: int, c2: int, c3: int, fault: int) -> bool:
             return verdict(False)
     if fpath is not None and fpath[0] in roots and (len(fpath) == 1 or fpath in starts):
         if not resp.get("errors"):
+            return verdict(False)
+    if "batch" in roots and fpath is not None and fpath[0] == "batch":
+        # the failure sits inside ONE item of the non-null list of nullable items: that item alone is null (or only its nullable leaf), the list and the other roots stand
+        b = data.get("batch")
+        if not (isinstance(b, list) and len(b) == 3 and data.get("codes") == [1, 2, 3]):
+            return verdict(False)
+        if fpath == ("batch", 1, "audit") and not (b[1] is None and b[0] is not None and b[2] is not None):
             return verdict(False)
     return verdict(True)
